@@ -741,6 +741,16 @@ func c01CliTweaks(g *G, L *Layout) {
 		L.Files[L.WorkingDir+"/.env"] = g.envFileContent("dotenv", nil) + "COMPOSE_PROJECT_NAME=fromdotenv\n"
 	}
 	L.OSEnv = []string{"PATH=/bin", "HOME=" + L.Home}
+	if g.chance("cli-profiles-env", 1, 2) {
+		// active profiles come from COMPOSE_PROFILES through cli.WithDefaultProfiles()
+		L.CliProfilesFromEnv = true
+		if len(L.Opts.Profiles) > 0 {
+			L.OSEnv = append(L.OSEnv, "COMPOSE_PROFILES="+strings.Join(L.Opts.Profiles, ","))
+			L.Opts.Profiles = nil
+		}
+		// a program may well build its list of option functions once and use it for every load
+		L.CliSharedOptionFns = g.chance("cli-shared-fns", 1, 2)
+	}
 	if g.chance("cli-env-files", 1, 3) {
 		// explicit --env-file arguments: explicitly referenced files, a missing one must be reported
 		n := 1 + g.n("cli-nenvfiles", 2)
